@@ -209,7 +209,11 @@ func (g *G) govMsg(v *view) script.Msg {
 	case 1, 2:
 		kind := g.pick("wrk.params", "bcn.params")
 		f := [][3]string{{"24", "2", "2"}, {"1000000000000", "1000000000", "5000000000"}, {"1", "1", "1"}, {"100", "7", "3"}}[g.rng.Intn(4)]
-		l := [][2]string{{"3", "6"}, {"2", "2"}, {"1", "5"}, {"200", "300"}, {"4", "4"}}[g.rng.Intn(5)]
+		l := [][2]string{{"3", "6"}, {"2", "2"}, {"1", "5"}, {"200", "300"}, {"4", "4"},
+			{"3", "18446744073709551615"}, {"1", "9223372036854775808"}, {"5", "9223372036854775807"}, {"2", "4294967296"}}[g.rng.Intn(9)]
+		if g.chance(8) { // fee parameters at the int64 boundary (the code converts them with int64())
+			f = [][3]string{{"9223372036854775807", "1", "1"}, {"24", "9223372036854775808", "2"}, {"24", "2", "18446744073709551615"}}[g.rng.Intn(3)]
+		}
 		if !valid {
 			switch g.rng.Intn(3) {
 			case 0:
